@@ -472,6 +472,22 @@ Proof.
     + left. unfold cflags. cbn. rewrite Es, Es0. reflexivity.
 Qed.
 
+(* channel.close: the status becomes Closed and the message being assembled is dropped (not a held message) *)
+Lemma Good_set_status_cur s c h st :
+  VI s -> (is_closed st = true -> forall ch, get_chan s c h = Some ch -> ch_unacked ch = [] /\ ch_consumers ch = []) ->
+  Good s (upd_chan s c h (fun ch => ch <| ch_status := st |> <| ch_cur := None |>)) nil1 nil1.
+Proof.
+  intros V Hc. unfold upd_chan. destruct (get_chan s c h) as [ch|] eqn:Ech; [|apply Good_frame; auto].
+  apply (Good_set_flags s c h ch); auto.
+  destruct (is_closed st) eqn:Es.
+  - right. intros _. destruct (Hc eq_refl _ eq_refl) as (A & B). auto.
+  - pose proof (cv_get_chan _ _ _ _ Ech) as Hcg. destruct (cv_get_in _ _ _ _ Hcg) as (st0 & chs & H1 & H2).
+    destruct (is_closed (ch_status ch)) eqn:Es0.
+    + right. cbn. intros _. destruct (vi_cz _ _ _ V _ _ _ _ _ _ H1 H2) as [A B]; [right; cbn; exact Es0|].
+      split; auto. cbn in B. destruct (ch_consumers ch); [reflexivity|discriminate].
+    + left. unfold cflags. cbn. rewrite Es, Es0. reflexivity.
+Qed.
+
 Lemma Good_clear_consumers s c h : VI s -> Good s (upd_chan s c h (fun ch => ch <| ch_consumers := [] |>)) nil1 nil1.
 Proof.
   intros V. unfold upd_chan. destruct (get_chan s c h) as [ch|] eqn:Ech; [|apply Good_frame; auto].
@@ -519,15 +535,15 @@ Proof.
       { unfold U. destruct (get_chan s2 c h) as [ch2|] eqn:E; [exact (proj1 (C2 _ _ _ E))|constructor]. }
       destruct (reject_multiple_exact _ _ _ _ _ _ _ _ _ _ Er Hnd) as (_ & Eu & _). rewrite Eu.
       clear. induction (U s2 c h) as [|a t IH]; cbn; auto. }
-    assert (G4 : Good s3 (upd_chan s3 c h (fun ch => ch <| ch_status := ChClosed |>)) nil1 nil1).
-    { apply Good_set_status; [exact (proj1 G)|]. intros _ ch3 Eg3. split; [rewrite <- (U_get _ _ _ _ Eg3); exact U3|].
+    assert (G4 : Good s3 (upd_chan s3 c h (fun ch => ch <| ch_status := ChClosed |> <| ch_cur := None |>)) nil1 nil1).
+    { apply Good_set_status_cur; [exact (proj1 G)|]. intros _ ch3 Eg3. split; [rewrite <- (U_get _ _ _ _ Eg3); exact U3|].
       exact (E3 _ _ _ Eg3 eq_refl eq_refl). }
     eapply Good_ext; [| |exact (Good_trans _ _ _ _ _ _ _ G2 (Good_trans _ _ _ _ _ _ _ G G4))].
     + intros q. unfold nil1. cbn [app andb]. rewrite app_nil_r. unfold covers. rewrite filter_covered0, Ue, (alive_view _ _ _ Eq2).
       destruct (queue_alive s q); reflexivity.
     + intros q. reflexivity.
-  - assert (G4 : Good s2 (upd_chan s2 c h (fun ch => ch <| ch_status := ChClosed |>)) nil1 nil1).
-    { apply Good_set_status; [exact (proj1 G2)|]. intros _ ch3 Eg3. split; [|exact (E2 _ _ _ Eg3 eq_refl eq_refl)].
+  - assert (G4 : Good s2 (upd_chan s2 c h (fun ch => ch <| ch_status := ChClosed |> <| ch_cur := None |>)) nil1 nil1).
+    { apply Good_set_status_cur; [exact (proj1 G2)|]. intros _ ch3 Eg3. split; [|exact (E2 _ _ _ Eg3 eq_refl eq_refl)].
       apply N.ltb_ge in Eh. assert (h = 0) by lia. subst h.
       pose proof (cv_get_chan _ _ _ _ Eg3) as Hcg. destruct (cv_get_in _ _ _ _ Hcg) as (st & chs & H1 & H2).
       exact (proj1 (vi_cz _ _ _ (proj1 G2) _ _ _ _ _ _ H1 H2 (or_introl eq_refl))). }
